@@ -39,6 +39,8 @@ fn dispatch(op: &str, input: &mut Value) -> OpResult {
     "resp" => k_resp::eval(op, input),
     #[cfg(feature = "k_gen")]
     "client" | "server" => k_resp::eval_op(op, input),
+    #[cfg(feature = "k_gen")]
+    "interop" => k_resp::eval_interop(op, input),
     _ => Err(format!("unknown-op:{op}")),
   }
 }
